@@ -142,6 +142,8 @@ Theorem C13_one_stream_huffman_literals_decode : forall t Mn, ht_max_bits t = Z.
 Proof. exact huffman_one_stream_decodes. Qed.
 
 Print Assumptions C13_raw_and_rle_literals_headers.
+Print Assumptions C13_raw_literals_decode.
+Print Assumptions C13_rle_literals_decode.
 Print Assumptions C13_one_stream_headers.
 Print Assumptions C13_one_stream_huffman_literals_decode.
 Print Assumptions C13_decoder_table_is_a_complete_prefix_code.
